@@ -195,11 +195,11 @@ func (p *c06Proc) measure(fam string, entry int, data []byte) c06Res {
 	var r rd
 	select {
 	case r = <-ch:
-	case <-time.After(4 * c06MaxWall):
+	case <-time.After(2 * c06MaxWall):
 		_ = p.cmd.Process.Kill()
 		<-ch
 		_ = p.cmd.Wait()
-		return c06Res{Died: true, TimedOut: true, Wall: 4 * c06MaxWall}
+		return c06Res{Died: true, TimedOut: true, Wall: 2 * c06MaxWall}
 	}
 	if r.err != nil {
 		_ = p.cmd.Wait()
@@ -577,6 +577,48 @@ func bigOnes() []c06Placed {
 	return r
 }
 
+// tagWrapped: every short input that starts with a tag head, and valid
+// documents wrapped in tags of every head width (termination of the
+// hand-written tag skipping in the claims and populate decoders).
+func tagWrapped() []c06Placed {
+	var r []c06Placed
+	for h := 0xc0; h <= 0xdb; h++ {
+		r = append(r, c06Placed{"cbor", fmt.Sprintf("tiny/%02x", h), []byte{byte(h)}}, c06Placed{"enc-cbor", fmt.Sprintf("tiny/%02x", h), []byte{byte(h)}})
+		for b := 0; b < 256; b++ {
+			d := []byte{byte(h), byte(b)}
+			r = append(r, c06Placed{"cbor", fmt.Sprintf("tiny/%x", d), d}, c06Placed{"enc-cbor", fmt.Sprintf("tiny/%x", d), d}, c06Placed{"cose", fmt.Sprintf("tiny/%x", d), d})
+		}
+	}
+	var tags []uint64
+	for tg := uint64(0); tg <= 31; tg++ {
+		tags = append(tags, tg)
+	}
+	tags = append(tags, 0xa0, 0xbf, 0xff, 0x100, 0x1a0, 55799, 0x10000, 0xa0a0a0a0, 1<<32, 1<<64-1)
+	for _, tg := range tags {
+		for _, p := range []Prof{P1, P2} {
+			root := baseValid(p, 1).WireNode()
+			for depth := 1; depth <= 3; depth++ {
+				var n *icbor.Node = root
+				for i := 0; i < depth; i++ {
+					n = icbor.Tag(tg, n)
+				}
+				b := icbor.Encode(n)
+				d := fmt.Sprintf("%s/tag%d x%d(claims)", p, tg, depth)
+				r = append(r, c06Placed{"cbor", d, b}, c06Placed{"enc-cbor", d, b}, c06Placed{"cose", "payload/" + d, icbor.Encode(c05Envelope(b))})
+			}
+			// tagged non-maps and a tag in front of nothing
+			for name, in := range map[string]*icbor.Node{"null": icbor.Null(), "array": icbor.Arr(root), "int": icbor.U(0xa0), "empty-map": icbor.Map()} {
+				b := icbor.Encode(icbor.Tag(tg, in))
+				d := fmt.Sprintf("%s/tag%d(%s)", p, tg, name)
+				r = append(r, c06Placed{"cbor", d, b}, c06Placed{"enc-cbor", d, b}, c06Placed{"cose", "payload/" + d, icbor.Encode(c05Envelope(b))})
+			}
+		}
+		env := c05Envelope(baseValid(P2, 0).WireBytes())
+		r = append(r, c06Placed{"cose", fmt.Sprintf("tag%d(envelope)", tg), icbor.Encode(icbor.Tag(tg, env))})
+	}
+	return r
+}
+
 func c06NonTrivial(fam string, data []byte) bool {
 	if len(data) >= 4096 {
 		return true
@@ -640,9 +682,9 @@ func c06RunOne(t interface{ Fatalf(string, ...any) }, st *Stats, pl *c06Pool, fa
 }
 
 func TestC06_Bombs(t *testing.T) {
-	st := NewStats("C06", "TestC06_Bombs", "enumeration, measured in an address-space-limited single-goroutine worker process (TotalAlloc delta and wall time per input): header bombs = every major type 2..6 x additional-info 24..27 x declared length in {0x80,0xff,2^8,2^16-1,2^16,2^24,2^31,2^32-1,2^32,2^63,2^64-1} x 0..16 following bytes, placed at top level and at every structural position of a valid token of both profiles (5 claim values, a component field, an unknown key's value, COSE payload / protected / unprotected / signature / tag content / protected-header content / unprotected-header value); nesting of arrays, maps, tags, indefinite containers to depth 8..32000 and JSON arrays/objects to depth 8..65536 (closed and unclosed, top level and inside claims); 4 KiB..60 KiB strings, 1000..16000-key maps (distinct and duplicate keys), 700-component and 60000-null component lists. Every input goes to every entry point of its family (COSE, claims CBOR incl. per-type unmarshal and extension types, claims JSON, populate helpers). Violation: a call allocates more than 1 MiB + 1 KiB per input byte, or takes > 5 s (re-measured in 3 fresh processes), or the worker dies with an out-of-memory fatal error. Non-trivial = declares more data than it carries, or nests >= 8 deep, or >= 4 KiB; distinct = family + input")
+	st := NewStats("C06", "TestC06_Bombs", "enumeration, measured in an address-space-limited single-goroutine worker process (TotalAlloc delta and wall time per input): header bombs = every major type 2..6 x additional-info 24..27 x declared length in {0x80,0xff,2^8,2^16-1,2^16,2^24,2^31,2^32-1,2^32,2^63,2^64-1} x 0..16 following bytes, placed at top level and at every structural position of a valid token of both profiles (5 claim values, a component field, an unknown key's value, COSE payload / protected / unprotected / signature / tag content / protected-header content / unprotected-header value); nesting of arrays, maps, tags, indefinite containers to depth 8..32000 and JSON arrays/objects to depth 8..65536 (closed and unclosed, top level and inside claims); 4 KiB..60 KiB strings, 1000..16000-key maps (distinct and duplicate keys), 700-component and 60000-null component lists; every 1- and 2-byte input that starts with a tag head and valid documents wrapped 1..3 deep in 42 tag numbers of every head width (termination of the hand-written tag skipping). Every input goes to every entry point of its family (COSE, claims CBOR incl. per-type unmarshal and extension types, claims JSON, populate helpers). Violation: a call allocates more than 1 MiB + 1 KiB per input byte, or takes > 5 s (re-measured in 3 fresh processes), or the worker dies with an out-of-memory fatal error. Non-trivial = declares more data than it carries, or nests >= 8 deep, or >= 4 KiB; distinct = family + input")
 	st.Exhaustive = true
-	st.Require = []string{"bomb", "nesting", "big", "family=cbor", "family=cose", "family=json", "family=enc-cbor", "family=enc-json"}
+	st.Require = []string{"bomb", "nesting", "big", "tag-wrapped", "family=cbor", "family=cose", "family=json", "family=enc-cbor", "family=enc-json"}
 	defer st.Flush(t)
 	pl := &c06Pool{}
 	defer pl.drop()
@@ -667,6 +709,9 @@ func TestC06_Bombs(t *testing.T) {
 	}
 	for _, p := range bigOnes() {
 		run(p, "big")
+	}
+	for _, p := range tagWrapped() {
+		run(p, "tag-wrapped")
 	}
 	cv, ev, jv := c05Vectors()
 	for _, v := range cv {
